@@ -1,3 +1,5 @@
+import re
+
 from ckl.errors import CklSyntaxError
 from ckl.lexer import Lexer, SourcePos
 
